@@ -343,6 +343,35 @@ EQ_TYPES = r"^apollo_compiler::(name::Name|node::Node<T>|schema::component::Comp
 LOCATION_FIELDS = {"start_offset", "tagged_file_id", "location", "origin", "header"}
 
 
+def rule_eqtext(prog, rep):
+    """C30.EQTEXT: two Names are equal exactly when their texts are equal (Hash and Ord follow
+    the text too, so anything else breaks maps and sets): `Name::eq` returns the comparison of the
+    two `as_str()` values on every path - a pointer fast path that does not also compare the
+    length makes two static names that share a prefix equal."""
+    from ..tables import enum_paths, return_value_on_path
+    rep.floor("C30.EQTEXT", 1)
+    f = prog.fn(r"^<apollo_compiler::name::Name as std::cmp::PartialEq>::eq$")
+    f = prog.inline(f, keep=r"::(as_str|eq)$")
+    bad = []
+    n = 0
+    for atoms, _rb, path in enum_paths(f):
+        rv = return_value_on_path(f, path) or ""
+        n += 1
+        texts = re.search(r"eq\(&\(?\*?Name::as_str\(&\(?\*?arg1\)?\)\)?, &\(?\*?Name::as_str\(&\(?\*?arg2\)?\)\)?\)$", rv) is not None
+        under = [a for a in atoms if a[0] == "callbool" and re.search(r"::eq$", a[1]) and len(a) > 4 and all("Name::as_str(" in f.sym(x) for x in a[4].args)]
+        if texts:
+            continue
+        if rv in ("const:true", "const:false") and under and (under[-1][3] is True) == (rv == "const:true"):
+            continue
+        bad.append(rv[:80])
+    rep.obligation(not bad)
+    if not bad and n:
+        rep.instance("C30.EQTEXT", "Name::eq is `self.as_str() == other.as_str()` on every path")
+    else:
+        rep.finding("C30.EQTEXT", f.name, "not-text-equality",
+                    "Name::eq has a path whose result is `%s`, not the comparison of the two texts: names with different text can compare equal (or equal text unequal) while Hash and Ord follow the text" % (bad[0] if bad else "?"), f.loc())
+
+
 def rule_eq(prog, rep):
     rep.floor("C30.EQ", 8)
     for fn in sorted(prog.fns.values(), key=lambda f: f.name):
@@ -439,6 +468,7 @@ def run(prog, rep):
     rule_refcount(prog, rep)
     rule_repr(prog, rep)
     rule_eq(prog, rep)
+    rule_eqtext(prog, rep)
     rule_cow(prog, rep)
     if rep.tier == "thorough":
         from .. import witness
